@@ -301,10 +301,14 @@ Lemma run_generate_run_with f fl : run_generate f fl = run_with f fl (search f c
 Proof. reflexivity. Qed.
 
 (* save_to_file / from_file: exact round trip for every settings value *)
+Lemma flat_json_shape c : flat_shape_ok (flat_json c) = true.
+Proof. reflexivity. Qed.
+
 Theorem flat_roundtrip c : from_flat (flat_json c) = Some c.
 Proof.
+  unfold from_flat. rewrite flat_json_shape.
   destruct c as [pp op vl vb vd ip tm ep ipat pc fc fo].
-  unfold from_flat, flat_json, fl_str, fl_obool, fl_ostrs, fl_omap.
+  unfold flat_at, flat_json, rd_str, rd_obool, rd_ostrs, rd_omap.
   cbn [lookup String.eqb Ascii.eqb Bool.eqb project_path output_path validation_library verbose visualize_deps
        include_private type_mappings exclude_patterns include_patterns default_parameter_case
        default_field_case force dflt].
@@ -314,42 +318,52 @@ Proof.
     destruct ipat as [ipat|]; cbn [ostrs]; try rewrite all_strs_map; cbn [option_map]; reflexivity.
 Qed.
 
-Lemma fl_str_spec d k dfl s : fl_str d k dfl = Some s -> s = or_else (as_str (get [PKey k] (JObj d))) dfl.
-Proof. unfold fl_str. cbn [get]. destruct (lookup k d) as [[]|]; cbn; intros H; try discriminate; congruence. Qed.
-Lemma fl_obool_spec d k o : fl_obool d k = Some o -> or_else o false = or_else (as_bool (get [PKey k] (JObj d))) false.
-Proof. unfold fl_obool. cbn [get]. destruct (lookup k d) as [[]|]; cbn; intros H; try discriminate; inversion H; reflexivity. Qed.
+Lemma rd_str_spec v dfl s : rd_str v dfl = Some s -> s = or_else (as_str v) dfl.
+Proof. unfold rd_str. destruct v as [[]|]; cbn; intros H; try discriminate; congruence. Qed.
+Lemma rd_obool_spec v o : rd_obool v = Some o -> or_else o false = or_else (as_bool v) false.
+Proof. unfold rd_obool. destruct v as [[]|]; cbn; intros H; try discriminate; inversion H; reflexivity. Qed.
 
-Lemma from_flat_fields doc c : from_flat doc = Some c -> exists d, doc = JObj d /\
-  fl_str d "project_path" "./src-tauri" = Some (project_path c) /\
-  fl_str d "output_path" "./src/generated" = Some (output_path c) /\
-  fl_str d "validation_library" "none" = Some (validation_library c) /\
-  fl_obool d "verbose" = Some (verbose c) /\ fl_obool d "visualize_deps" = Some (visualize_deps c) /\
-  fl_obool d "force" = Some (force c).
+Lemma from_flat_fields doc c : from_flat doc = Some c ->
+  flat_shape_ok doc = true /\
+  rd_str (flat_at doc "project_path" 0) "./src-tauri" = Some (project_path c) /\
+  rd_str (flat_at doc "output_path" 1) "./src/generated" = Some (output_path c) /\
+  rd_str (flat_at doc "validation_library" 2) "none" = Some (validation_library c) /\
+  rd_obool (flat_at doc "verbose" 3) = Some (verbose c) /\ rd_obool (flat_at doc "visualize_deps" 4) = Some (visualize_deps c) /\
+  rd_obool (flat_at doc "force" 11) = Some (force c).
 Proof.
-  destruct doc as [| | | | |d]; try discriminate. intros H. exists d. split; [reflexivity|].
-  unfold from_flat in H. cbn [project_path output_path validation_library dflt default_parameter_case default_field_case] in H.
-  destruct (fl_str d "project_path" "./src-tauri") as [pp|]; [|discriminate].
-  destruct (fl_str d "output_path" "./src/generated") as [op|]; [|discriminate].
-  destruct (fl_str d "validation_library" "none") as [vl|]; [|discriminate].
-  destruct (fl_obool d "verbose") as [vb|]; [|discriminate].
-  destruct (fl_obool d "visualize_deps") as [vd|]; [|discriminate].
-  destruct (fl_obool d "include_private") as [ip|]; [|discriminate].
-  destruct (fl_omap d "type_mappings") as [tm|]; [|discriminate].
-  destruct (fl_ostrs d "exclude_patterns") as [ep|]; [|discriminate].
-  destruct (fl_ostrs d "include_patterns") as [ipat|]; [|discriminate].
-  destruct (fl_str d "default_parameter_case" "camelCase") as [pc|]; [|discriminate].
-  destruct (fl_str d "default_field_case" "snake_case") as [fc|]; [|discriminate].
-  destruct (fl_obool d "force") as [fo|]; [|discriminate].
+  intros H. unfold from_flat in H.
+  cbn [project_path output_path validation_library dflt default_parameter_case default_field_case] in H.
+  destruct (flat_shape_ok doc); [|discriminate]. split; [reflexivity|].
+  destruct (rd_str (flat_at doc "project_path" 0) "./src-tauri") as [pp|]; [|discriminate].
+  destruct (rd_str (flat_at doc "output_path" 1) "./src/generated") as [op|]; [|discriminate].
+  destruct (rd_str (flat_at doc "validation_library" 2) "none") as [vl|]; [|discriminate].
+  destruct (rd_obool (flat_at doc "verbose" 3)) as [vb|]; [|discriminate].
+  destruct (rd_obool (flat_at doc "visualize_deps" 4)) as [vd|]; [|discriminate].
+  destruct (rd_obool (flat_at doc "include_private" 5)) as [ip|]; [|discriminate].
+  destruct (rd_omap (flat_at doc "type_mappings" 6)) as [tm|]; [|discriminate].
+  destruct (rd_ostrs (flat_at doc "exclude_patterns" 7)) as [ep|]; [|discriminate].
+  destruct (rd_ostrs (flat_at doc "include_patterns" 8)) as [ipat|]; [|discriminate].
+  destruct (rd_str (flat_at doc "default_parameter_case" 9) "camelCase") as [pc|]; [|discriminate].
+  destruct (rd_str (flat_at doc "default_field_case" 10) "snake_case") as [fc|]; [|discriminate].
+  destruct (rd_obool (flat_at doc "force" 11)) as [fo|]; [|discriminate].
   inversion H; subst c. cbn. repeat split; reflexivity.
 Qed.
 
-(* flag over standalone file over default, setting by setting *)
+(* a standalone file that gives one of the twelve fields twice is refused; so is an array
+   with more than twelve elements and any root that is neither an object nor an array *)
+Theorem from_flat_dup d : dup_field d = true -> from_flat (JObj d) = None.
+Proof. intros H. unfold from_flat, flat_shape_ok. rewrite H. reflexivity. Qed.
+Theorem from_flat_shape doc : flat_shape_ok doc = false -> from_flat doc = None.
+Proof. intros H. unfold from_flat. rewrite H. reflexivity. Qed.
+
+(* flag over standalone file over default, setting by setting (a field of the file is found
+   by name in an object and by position in an array) *)
 Theorem precedence_c fl doc c0 : from_flat doc = Some c0 ->
   eff_of fl (apply_flags fl c0) = spec_eff_c fl doc.
 Proof.
-  intros H. destruct (from_flat_fields doc c0 H) as (d & -> & Hp & Ho & Hl & Hv & Hz & Hf).
-  apply fl_str_spec in Hp. apply fl_str_spec in Ho. apply fl_str_spec in Hl.
-  apply fl_obool_spec in Hv. apply fl_obool_spec in Hz. apply fl_obool_spec in Hf.
+  intros H. destruct (from_flat_fields doc c0 H) as (_ & Hp & Ho & Hl & Hv & Hz & Hf).
+  apply rd_str_spec in Hp. apply rd_str_spec in Ho. apply rd_str_spec in Hl.
+  apply rd_obool_spec in Hv. apply rd_obool_spec in Hz. apply rd_obool_spec in Hf.
   unfold spec_eff_c, flat_str, flat_bool. cbv zeta.
   destruct fl as [fp fo fv fvb fvz ff].
   unfold eff_of, apply_flags, effective, flag_of.
@@ -445,6 +459,51 @@ Proof.
   eexists. eexists. split; [reflexivity|]. split; [reflexivity|]. split; reflexivity.
 Qed.
 
+(* ---------------------------------------------------------------- the build script with project detection *)
+Theorem build_precedence_at f tp gp : kf_build_fallback_at f tp gp = false ->
+  eff_of no_flags (build_config_at f tp gp) = spec_eff_build_at f tp gp.
+Proof.
+  unfold kf_build_fallback_at, spec_eff_build_at, build_section_at, build_config_at, from_tauri_config, load_doc.
+  assert (forall (Hk : match fs_get f gp with
+                       | Some (NDoc (Some t)) => match from_file f gp with None => true | Some _ => false end
+                       | _ => false end = false),
+            eff_of no_flags (match from_file f gp with Some c => c | None => dflt end) =
+            match fs_get f gp with Some (NDoc (Some t)) => spec_eff_c no_flags t | _ => spec_eff_sec None end) as Hg.
+  { intros Hk. destruct (fs_get f gp) as [[| |[t|]|o]|] eqn:Eg.
+    all: unfold from_file in *; rewrite Eg in *; try apply eff_default.
+    destruct (from_flat t) as [c|] eqn:Ef; [|discriminate].
+    destruct (validate f c); [discriminate|]. exact (precedence_c no_flags t c Ef). }
+  destruct tp as [p|]; [|exact Hg].
+  destruct (fs_get f p) as [[| |[d|]|o]|] eqn:Et; try exact Hg.
+  destruct (get P d) as [tg|]; [|exact Hg].
+  destruct (validate f (config_of_section tg)); [discriminate|]. intros _. apply eff_section.
+Qed.
+
+(* the build script, detection included: with a detected root and outside C19-9 the run uses
+   the root's file over the defaults; without a detected root nothing is generated *)
+Theorem build_detect_precedence f r : build_root f = Some r -> kf_build_fallback_detect f = false ->
+  exists res, run_build_detect f = res /\
+    (res = RNoCommands (spec_eff_build_detect f) f \/ exists f', res = RRun (spec_eff_build_detect f) f').
+Proof.
+  intros Hr Hk. unfold run_build_detect, spec_eff_build_detect, kf_build_fallback_detect in *. rewrite Hr in *.
+  cbv zeta. rewrite (build_precedence_at f _ _ Hk). eexists. split; [reflexivity|].
+  destruct (fs_get f (project_path _)) as [[| | |]|]; try (left; reflexivity). right. eexists. reflexivity.
+Qed.
+
+Theorem build_detect_none f : build_root f = None -> exists e, run_build_detect f = RNoCommands e f.
+Proof. intros H. unfold run_build_detect. rewrite H. eexists. reflexivity. Qed.
+
+(* run from the project root (no tauri.conf.js there) detection changes nothing *)
+Theorem build_detect_here f : is_root f "" = true -> fs_exists f "tauri.conf.js" = false ->
+  run_build_detect f = run_build f.
+Proof.
+  intros Hr Hj. unfold run_build_detect, build_root. rewrite Hr. unfold run_build. cbv zeta.
+  assert (build_config_at f (build_conf_path f "") ("" ++ "typegen.json") = build_config f) as ->; [|reflexivity].
+  unfold build_config_at, build_conf_path, build_config. cbn [append]. rewrite Hj.
+  destruct (fs_exists f "tauri.conf.json") eqn:Ee; [reflexivity|].
+  unfold fs_exists in Ee. unfold from_tauri_config. destruct (fs_get f "tauri.conf.json"); [discriminate|]. reflexivity.
+Qed.
+
 (* ---------------------------------------------------------------- init -o <standalone file> *)
 Theorem init_file_reject_first f il force : init_invalid f il = true ->
   run_init_file f il force = RFail f \/ exists e, run_init_file f il force = RReject e f.
@@ -458,17 +517,30 @@ Theorem init_file_no_overwrite f il : fs_exists f (or_else (i_output il) "tauri.
   run_init_file f il false = RFail f.
 Proof. intros H. unfold run_init_file. rewrite H. reflexivity. Qed.
 
+(* a target that cannot be created (its directory does not exist, or a regular file is in
+   the way, or the target is a directory): an error and every file left alone, whatever else *)
+Theorem init_file_unwritable f il force :
+  init_writable f (or_else (i_output il) "tauri.conf.json") = false ->
+  run_init_file f il force = RFail f \/ exists e, run_init_file f il force = RReject e f.
+Proof.
+  intros Hw. unfold run_init_file.
+  destruct (fs_exists f (or_else (i_output il) "tauri.conf.json") && negb force); [left; reflexivity|].
+  destruct (validate f (init_config il)) as [e|]; [right; exists e; reflexivity|]. rewrite Hw. left. reflexivity.
+Qed.
+
 Theorem init_file_document f il force :
   init_invalid f il = false ->
   fs_exists f (or_else (i_output il) "tauri.conf.json") && negb force = false ->
+  init_writable f (or_else (i_output il) "tauri.conf.json") = true ->
   norm (init_generated il) <> norm (or_else (i_output il) "tauri.conf.json") ->
   fs_get (result_fs (run_init_file f il force)) (or_else (i_output il) "tauri.conf.json")
     = Some (NDoc (Some (flat_json (init_config il))))
   /\ from_flat (flat_json (init_config il)) = Some (init_config il).
 Proof.
-  intros Hi He Hn. split; [|apply flat_roundtrip]. unfold run_init_file. rewrite He.
+  intros Hi He Hw Hn. split; [|apply flat_roundtrip]. unfold run_init_file. rewrite He.
   destruct (validate f (init_config il)) as [e|] eqn:Ev.
   { assert (init_invalid f il = true) as Hc by (apply init_invalid_validate; congruence). congruence. }
+  rewrite Hw.
   set (t := or_else (i_output il) "tauri.conf.json") in *.
   set (f1 := fs_put f t (NDoc (Some (flat_json (init_config il))))).
   assert (fs_get f1 t = Some (NDoc (Some (flat_json (init_config il))))) as H1 by apply fs_get_put_same.
